@@ -109,6 +109,15 @@ def main(argv):
             return None
         step("C_RETURN", code, callable_, arg0)
 
+    line_hits = {}
+    if mode == "count":
+        def on_line(code, line):
+            if in_scope(code):
+                line_hits.setdefault(code.co_filename, set()).add(line)
+            return mon.DISABLE
+        mon.use_tool_id(4, "vmon-linehits")
+        mon.register_callback(4, mon.events.LINE, on_line)
+        mon.set_events(4, mon.events.LINE)
     mon.use_tool_id(TOOL, "vmon-failpoint")
     mon.register_callback(TOOL, mon.events.CALL, on_call)
     mon.register_callback(TOOL, mon.events.C_RETURN, on_c_return)
@@ -147,6 +156,7 @@ def main(argv):
     out = {"events": state["n"], "rc": rc, "err": err}
     if mode == "count":
         out["trace"] = state["trace"]
+        out["line_hits"] = {k: sorted(v) for k, v in line_hits.items()}
     sys.stdout.write(json.dumps(out) + "\n")
     sys.stdout.flush()
     os._exit(rc)
